@@ -346,6 +346,38 @@ impl DomainParticipantEntity {
             .find(|x| &x.key().value == topic_handle.as_ref())
     }
 
+    /// Returns a handle which is not in use by any of the topics of this participant or
+    /// [`None`] if all the topic keys are in use.
+    pub fn next_topic_handle(&mut self) -> Option<InstanceHandle> {
+        let topic_key = (0..=u16::MAX)
+            .map(|i| self.topic_counter.wrapping_add(i))
+            .find(|key| {
+                !self
+                    .locally_created_topic_list
+                    .iter()
+                    .any(|t| [t.instance_handle[13], t.instance_handle[14]] == key.to_ne_bytes())
+            })?;
+        self.topic_counter = topic_key.wrapping_add(1);
+        Some(InstanceHandle::new([
+            self.instance_handle[0],
+            self.instance_handle[1],
+            self.instance_handle[2],
+            self.instance_handle[3],
+            self.instance_handle[4],
+            self.instance_handle[5],
+            self.instance_handle[6],
+            self.instance_handle[7],
+            self.instance_handle[8],
+            self.instance_handle[9],
+            self.instance_handle[10],
+            self.instance_handle[11],
+            0,
+            topic_key.to_ne_bytes()[0],
+            topic_key.to_ne_bytes()[1],
+            USER_DEFINED_TOPIC,
+        ]))
+    }
+
     pub fn find_topic(
         &mut self,
         topic_name: &str,
@@ -378,25 +410,7 @@ impl DomainParticipantEntity {
                 representation: discovered_topic_data.representation().clone(),
             };
             let type_name = discovered_topic_data.type_name.clone();
-            let topic_handle = InstanceHandle::new([
-                self.instance_handle[0],
-                self.instance_handle[1],
-                self.instance_handle[2],
-                self.instance_handle[3],
-                self.instance_handle[4],
-                self.instance_handle[5],
-                self.instance_handle[6],
-                self.instance_handle[7],
-                self.instance_handle[8],
-                self.instance_handle[9],
-                self.instance_handle[10],
-                self.instance_handle[11],
-                0,
-                self.topic_counter.to_ne_bytes()[0],
-                self.topic_counter.to_ne_bytes()[1],
-                USER_DEFINED_TOPIC,
-            ]);
-            self.topic_counter += 1;
+            let topic_handle = self.next_topic_handle()?;
             let status_condition = DcpsStatusCondition::default();
             let mut topic = TopicEntity::new(
                 qos,
